@@ -396,8 +396,14 @@ def _huge_classes(prob):
     for c, ms in sorted(occ.items()):
         if not ms or not all(m == "s" for m in ms):
             continue
-        if all(any(leaf[0] == "t" and any(prob["classes"].get(x, x) == c for x in leaf[2]) for leaf in term)
-               for term in terms):
+        if not all(any(leaf[0] == "t" and any(prob["classes"].get(x, x) == c for x in leaf[2]) for leaf in term)
+                   for term in terms):
+            continue
+        # broadcasting is per index VARIABLE: a target index of the class that some term does not
+        # mention is broadcast along by that term, even if the term mentions a class-mate (a tensor
+        # mentioned twice, A(l,k,i) = B(i,j) + B(l,k), puts i and l into one class)
+        tvars = [x for x in prob["target"] if prob["classes"].get(x, x) == c]
+        if all(any(leaf[0] == "t" and x in leaf[2] for leaf in term) for x in tvars for term in terms):
             ok.append(c)
     return ok
 
